@@ -60,6 +60,17 @@ CLAIMED['C07'].update(category='other', technique=_PC,
     text='Proved: on every path of the callbacks under contract only the documented exception classes escape (asserts, subscripts, sum-type attribute accesses, enum lookups discharged under the rule-derived child shapes). Bounded (A-LARK): exceptions of the parsing library, recursion depth, statelessness of a parser object (fuzzing, failing-then-valid sequences against a fresh parser).')
 CLAIMED['C18'].update(category='other', technique=_PC,
     text='Proved: hpl_file returns exactly its children in order; the annotation callbacks build their (key, value) pairs; metadata() raises HplSyntaxError iff a key repeats and otherwise returns exactly the given mapping. Bounded (A-LARK): segmentation of a file into properties, attribution of annotations, error class of an invalid member.')
+_SEM = ('pyvc contracts + z3/cvc5 over the real source against the truth-value semantics specs/sem.py (universally quantified '
+        'valuation; boolean connectives and quantifiers defined, everything below abstract); induction lemmas on quantifier '
+        'domains and work lists; loop invariant; plus the bounded stand-in against the reference evaluator')
+CLAIMED['C09'].update(category='other', technique=_SEM,
+    text='Proved (unbounded, every well-typed boolean expression): split_and, _split_and_expr (work-list loop invariant), '
+         '_and_presplit_transform, _split_and_not, _split_and_quantifier, empty_test: the conjunction of the parts is equivalent '
+         'to the input on every valuation; every part is boolean and of none of the listed shapes; ValueError only if the input '
+         'is unsatisfiable. Assumed: semantic axioms A-SEM-1..3 (checked natively), quantifier/function-call constructor '
+         'contracts. Not proved: absence of TypeError/HplSanityError from the quantifier constructor (C14, bounded), the '
+         'predicate-unwrapping dispatch. Bounded stand-in kept.',
+    note='A-SEM; obligations lost with respect to /verif/baseline/C09.json are reported as violations without a failing input')
 CLAIMED['C19'].update(category='other', technique='ground evaluation + pyvc contract of the value serializer; bounded in-process runs of hpl.cli.main (third-party: attrs.asdict, json, argparse)',
     text='Proved/ground: _ast_object_serializer maps enum members to values, non-finite floats to None, leaves finite numbers and other values unchanged. Bounded (A-3P): exit status 0 iff the argument parses, one strictly valid JSON document mirroring the AST, no JSON on failure.')
 NOT_YET = {}
